@@ -152,7 +152,8 @@ def vtimezone_lines(defn, with_tzid=True):
         lines.append("TZOFFSETFROM:" + fmt_offset(ob["from"]))
         lines.append("TZOFFSETTO:" + fmt_offset(ob["to"]))
         if ob.get("name"):
-            lines.append("TZNAME:" + ob["name"])
+            # RFC 5545 3.8.3.2: TZNAME may say in which language it is written
+            lines.append("TZNAME" + (";LANGUAGE=" + ob["lang"] if ob.get("lang") else "") + ":" + ob["name"])
         rr = ob.get("rrule")
         if rr:
             s = f"RRULE:FREQ=YEARLY;BYMONTH={rr['bymonth']};BYDAY={rr['byday'][0]}{rr['byday'][1]}"
@@ -369,6 +370,12 @@ def gen_definition(rng, tzid, allow_inconsistent=False):
     if with_names and len(defn["obs"]) > 1 and rng.random() < 0.15:
         rng.choice(defn["obs"])["name"] = None      # TZNAME is optional per observance
         meta["partly_named"] = True
+    if with_names and rng.random() < 0.12:
+        lang = rng.choice(["en", "de-AT", "fr-CA"])
+        for ob in defn["obs"]:
+            if ob.get("name") and rng.random() < 0.8:
+                ob["lang"] = lang
+        meta["tzname_language"] = True
     if rng.random() < 0.4:
         # what real producers add: properties that must not influence the zone.  The revision stamp is the same in
         # every export of one producer, whatever the definition says (a truncated export, another rule set)
